@@ -33,19 +33,20 @@ Contacts_Reset(c) ==
    last |-> NA_Zero, first |-> NA_Zero]
 
 \* func (c *PContacts) GetContact(n int) *PFromBody: which object the returned pointer designates
-\* ("null" = nil).  A record cannot be compared with a string in TLC, hence selector + projection.
+\* ("null" = nil); the projection of a nil pointer is the record [nil |-> TRUE] (obs.go: {"nil":true}).
 Contacts_GetSel(c, k) ==
   IF Contacts_VNo(c) > k THEN "vals"
   ELSE IF Contacts_Empty(c) THEN "null"
   ELSE IF c.n = k + 1 THEN "last"            \* NOTE: &c.last, whatever it holds now (it is re-used for the next value)
   ELSE IF k = 0 THEN "first"
   ELSE "null"
+VL_NilObs == [nil |-> TRUE]
 Contacts_GetObs(c, k) ==
   LET sel == Contacts_GetSel(c, k) IN
     CASE sel = "vals"  -> NameAddr_Obs(c.vals[k + 1])
       [] sel = "last"  -> NameAddr_Obs(c.last)
       [] sel = "first" -> NameAddr_Obs(c.first)
-      [] OTHER         -> "null"
+      [] OTHER         -> [nil |-> TRUE]
 
 Contacts_Obs(c) ==
   [N |-> c.n, HNo |-> c.hno, MaxExpires |-> c.maxexp, MinExpires |-> c.minexp,
@@ -53,7 +54,7 @@ Contacts_Obs(c) ==
    Parsed |-> Contacts_Parsed(c),
    Vals |-> SubSeq([j \in 1..Contacts_VNo(c) |-> NameAddr_Obs(c.vals[j])], 1, Contacts_VNo(c)),
    First |-> Contacts_GetObs(c, 0),
-   Last |-> IF c.n > 0 THEN Contacts_GetObs(c, c.n - 1) ELSE "null"]
+   Last |-> IF c.n > 0 THEN Contacts_GetObs(c, c.n - 1) ELSE [nil |-> TRUE]]
 
 Contacts_Panicked(c) == IsPanicF(c.lasthval) \/ NameAddr_Panicked(c.last) \/ NameAddr_Panicked(c.first)
                         \/ \E j \in 1..Len(c.vals) : NameAddr_Panicked(c.vals[j])
